@@ -51,21 +51,25 @@ def sh(cmd, cwd=None, timeout=None, env=None):
 
 # ---------------------------------------------------------------------------
 def unit_props(template):
-    """properties served by a template (from //@props, props= and [Cxx.] tags), includes resolved."""
+    """properties served by a template (from //@props, props= and [Cxx.] tags), includes resolved.  Tags inside the
+    shared contract fragments (frag/c) do not count: a unit that merely ASSUMES a contract does not serve its property."""
     props = set()
 
-    def rd(path, seen):
+    def rd(path, seen, shared):
         if path in seen:
-            return ""
+            return "", ""
         seen.add(path)
         txt = open(path).read()
+        own, sh = ("", txt) if shared else (txt, "")
         for m in re.finditer(r"(?m)^\s*//@include\s+(\S+)", txt):
-            txt += rd(os.path.join(VX_DIR, m.group(1)), seen)
-        return txt
-    txt = rd(template, set())
-    for m in re.finditer(r"(?m)^\s*//@props\s+(.*)$", txt):
+            o2, s2 = rd(os.path.join(VX_DIR, m.group(1)), seen, shared or m.group(1).startswith("frag/c/"))
+            own += o2
+            sh += s2
+        return own, sh
+    txt, shared_txt = rd(template, set(), False)
+    for m in re.finditer(r"(?m)^\s*//@props\s+(.*)$", txt + shared_txt):
         props.update(m.group(1).split())
-    for m in re.finditer(r"props=([\w,]+)", txt):
+    for m in re.finditer(r"props=([\w,]+)", txt + shared_txt):
         props.update(m.group(1).split(","))
     for m in re.finditer(r"//\[((?:C\d+[\w.\-]*\??\s*)+)\]", txt):
         for t in m.group(1).split():
